@@ -71,6 +71,7 @@ def run(ctx: Context) -> None:
     ctx.rule(r4_validation)
     ctx.rule(r5_siblings)
     ctx.rule(r6_filters)
+    ctx.rule(dtype_rule)
 
 
 def r1_purity(ctx: Context) -> None:
@@ -353,3 +354,13 @@ def r6_filters(ctx: Context) -> None:
     real = cl.bound_params[1]
     rebound = [s for s in walk_scope(cl.node) if isinstance(s, (ast.Assign, ast.AugAssign, ast.AnnAssign)) and any(isinstance(t, ast.Name) and t.id == real for t in ast.walk(s.targets[0] if isinstance(s, ast.Assign) else s.target))]
     ctx.check(not rebound, "R6.sim-only", "BaseLoss.compute_loss:real-untouched", "the real data reach compute_loss_1d unfiltered", f"real data rebound by `{src(rebound[0]) if rebound else ''}`", cl, rebound[0] if rebound else None)
+
+
+def dtype_rule(ctx: Context) -> None:
+    """Results must not be stored into arrays that inherit the dtype of caller-supplied data (integer input would truncate them)."""
+    from ..util import dtype_inheritance_sites
+    funcs = [f for f in ctx.prog.all_functions() if f.module.name.startswith(('black_it.loss_functions',))]
+    for f, node, what in dtype_inheritance_sites(ctx.prog, funcs):
+        ctx.fail("R7.dtype", f"{f.qualname.split(':')[1]}:inherited-dtype:{' '.join(src(node).split())[:50]}",
+                 f"{what}: for integer or lower-precision input the value is silently truncated / rounded on assignment, so the result is no longer what the definition gives", f, node)
+    ctx.ok("R7.dtype", "c08:scanned", f"{len(funcs)} functions: no computed value is stored into an array of inherited dtype")
